@@ -212,8 +212,8 @@ impl<'a, 'b> Gen<'a, 'b> {
     }
 
     fn step(&mut self) {
-        // weights: const, copy, bin, un, ext, subpiece, store, load, sp-adjust, fp-set, noise
-        let w = [5u32, 2, 6, 1, 2, 2, 5, 5, 2, 1, 2];
+        // weights: const, copy, bin, un, ext, subpiece, store, load, sp-adjust, fp-set, noise, partial store/load
+        let w = [5u32, 2, 6, 1, 2, 2, 5, 5, 2, 1, 2, 3];
         let total: u32 = w.iter().sum();
         let mut x = self.t.below(total as usize) as u32;
         let mut kind = 0;
@@ -302,6 +302,33 @@ impl<'a, 'b> Gen<'a, 'b> {
                 let (sp, fp) = (self.sp.clone(), self.fp.clone());
                 self.defs.push(irb::assign(t, &fp, irb::evar(&sp)));
                 self.fp_delta = Some(self.sp_delta);
+            }
+            11 => {
+                // a smaller store into / load out of the middle of an existing slot (the analysis
+                // may lose the slot's value, it must not keep a stale one)
+                let big: Vec<(i64, usize, V)> = self.slots.iter().filter(|(_, s, _)| *s >= 2).cloned().collect();
+                if !big.is_empty() {
+                    let (abs, size, v) = big[self.t.below(big.len())];
+                    let smaller: Vec<usize> = [1usize, 2, 4].iter().copied().filter(|x| *x < size).collect();
+                    let sz = *self.t.choose(&smaller);
+                    let off = self.t.below(size - sz + 1);
+                    if self.t.prob(170) {
+                        let (e, k) = self.operand(sz);
+                        let a = self.addr(abs + off as i64);
+                        let t = self.tid();
+                        self.defs.push(irb::store(t, a, e));
+                        let mask = ((1u128 << (8 * sz)) - 1) << (8 * off);
+                        let nv = rs::val((v.v & !mask) | (k.v << (8 * off)), size);
+                        for slot in self.slots.iter_mut() {
+                            if slot.0 == abs && slot.1 == size {
+                                slot.2 = nv;
+                            }
+                        }
+                    } else {
+                        let d = self.dst(sz);
+                        self.load(&d, abs + off as i64, rs::subpiece(v, off, sz));
+                    }
+                }
             }
             _ => {
                 // noise: a register gets an unknown value (it is not used as operand afterwards)
@@ -632,7 +659,11 @@ struct Cv {
 struct Machine {
     seed: u64,
     vars: BTreeMap<(String, usize), Cv>,
-    mem: BTreeMap<u128, (u8, bool, u32)>,
+    /// address -> (byte, fragile, depth, id of the store, index of the byte in the store, width of the store)
+    mem: BTreeMap<u128, (u8, bool, u32, u32, usize, usize)>,
+    stores: u32,
+    /// loads that did not read back exactly one earlier store
+    composite_loads: u32,
 }
 
 fn fits_signed(x: i128, w: usize) -> bool {
@@ -643,7 +674,7 @@ fn fits_signed(x: i128, w: usize) -> bool {
 
 impl Machine {
     fn new(seed: u64, sp: &Variable) -> Machine {
-        let mut m = Machine { seed, vars: BTreeMap::new(), mem: BTreeMap::new() };
+        let mut m = Machine { seed, vars: BTreeMap::new(), mem: BTreeMap::new(), stores: 0, composite_loads: 0 };
         let w = u64::from(sp.size) as usize;
         let base: u128 = if w == 8 { 0x7ffd_0000_0000 + ((mix64(seed) as u128 & 0xffff) << 12) } else { 0x7f00_0000 + ((mix64(seed) as u128 & 0xff) << 12) };
         m.vars.insert((sp.name.clone(), w), Cv { v: rs::val(base, w), fragile: false, depth: 0, mem: false });
@@ -717,18 +748,32 @@ impl Machine {
         let mut x = 0u128;
         let mut fragile = false;
         let mut depth = 0;
+        let mut pieces: std::collections::BTreeSet<u32> = Default::default();
         for i in 0..w {
             let a = addr.wrapping_add(i as u128);
-            let (b, f, d) = self.mem.get(&a).copied().unwrap_or(((mix64(a as u64 ^ self.seed.rotate_left(17)) & 0xff) as u8, false, 0));
+            let (b, f, d, id, idx, width) = self.mem.get(&a).copied().unwrap_or(((mix64(a as u64 ^ self.seed.rotate_left(17)) & 0xff) as u8, false, 0, 0, i, w));
             x |= (b as u128) << (8 * i);
             fragile |= f;
             depth = depth.max(d);
+            pieces.insert(id);
+            // not the value of one store read back with its offset and size: the memory model of
+            // the analysis documents that it does not track such values
+            if idx != i || width != w {
+                fragile = true;
+            }
+        }
+        if pieces.len() > 1 {
+            fragile = true;
+        }
+        if fragile && !pieces.contains(&0) {
+            self.composite_loads += 1;
         }
         Cv { v: rs::val(x, w), fragile, depth, mem: true }
     }
     fn store(&mut self, addr: u128, c: Cv) {
+        self.stores += 1;
         for i in 0..c.v.w {
-            self.mem.insert(addr.wrapping_add(i as u128), (((c.v.v >> (8 * i)) & 0xff) as u8, c.fragile, c.depth));
+            self.mem.insert(addr.wrapping_add(i as u128), (((c.v.v >> (8 * i)) & 0xff) as u8, c.fragile, c.depth, self.stores, i, c.v.w));
         }
     }
     fn run(&mut self, defs: &[Term<Def>]) -> Result<(), String> {
@@ -769,8 +814,9 @@ impl Machine {
 
 /// Parameter values of the call at the end of `block`, evaluated from two unrelated initial
 /// states; `None` if they depend on the initial state (not a constant computed from constants).
-fn actual_params(project: &Project, block: &Term<Blk>, sym: &ExternSymbol) -> Result<Option<Vec<Cv>>, String> {
+fn actual_params(project: &Project, block: &Term<Blk>, sym: &ExternSymbol) -> Result<Option<(Vec<Cv>, u32)>, String> {
     let mut out: Vec<Vec<Cv>> = vec![];
+    let mut composite = 0;
     for seed in [0x1234_5678_9abc_def0u64, 0x0fed_cba9_8765_4321] {
         let mut m = Machine::new(seed, &project.stack_pointer_register);
         m.run(&block.term.defs)?;
@@ -779,13 +825,14 @@ fn actual_params(project: &Project, block: &Term<Blk>, sym: &ExternSymbol) -> Re
             ps.push(m.param(a)?);
         }
         out.push(ps);
+        composite = m.composite_loads;
     }
     for (a, b) in out[0].iter().zip(out[1].iter()) {
         if a.v != b.v {
             return Ok(None);
         }
     }
-    Ok(Some(out.remove(0)))
+    Ok(Some((out.remove(0), composite)))
 }
 
 // ---------------------------------------------------------------------------------------------
@@ -839,7 +886,12 @@ pub fn check(case: &Case, ctx: &mut Ctx) -> CaseResult {
         }
     };
     let vals = match actual_params(&project, block, sym) {
-        Ok(Some(v)) => v,
+        Ok(Some((v, composite))) => {
+            if composite > 0 {
+                ctx.label("load-of-partially-overwritten-or-partial-slot");
+            }
+            v
+        }
         Ok(None) => {
             ctx.label("skipped-parameter-not-constant");
             return Ok(());
@@ -987,14 +1039,14 @@ pub fn check(case: &Case, ctx: &mut Ctx) -> CaseResult {
 }
 
 pub fn run(eng: &mut Engine) {
-    eng.rule = "case = one block ending in a call to umask (one parameter) or to malloc/calloc/memcpy/strncpy (1..3 parameters) whose parameters (full register, low half of a register, or stack slot; pointer size 8 or 4) are computed from constants only by 0..8 random defs (constant assignments, copies, add/sub/and/or/xor/shifts/mult, negation, zero/sign extension, subpiece, stores to aligned non-overlapping stack slots and loads back, SP adjustments, frame pointer copies, noise) followed by a goal-directed placement that steers each parameter onto or next to 0o177/0o200/0o777/pointer size; normalized with Project::normalize; actual parameter values from an own evaluator on the normalized block; non-trivial = some parameter is produced by at least one operator application or passes through a stack slot AND lies within 1 of a threshold relevant for the called function; distinct by hash of the decoded case".into();
+    eng.rule = "case = one block ending in a call to umask (one parameter) or to malloc/calloc/memcpy/strncpy (1..3 parameters) whose parameters (full register, low half of a register, or stack slot; pointer size 8 or 4) are computed from constants only by 0..8 random defs (constant assignments, copies, add/sub/and/or/xor/shifts/mult, negation, zero/sign extension, subpiece, stores to aligned stack slots and loads back, smaller stores into / loads out of the middle of a slot, SP adjustments, frame pointer copies, noise) followed by a goal-directed placement that steers each parameter onto or next to 0o177/0o200/0o777/pointer size; normalized with Project::normalize; actual parameter values from an own evaluator on the normalized block; non-trivial = some parameter is produced by at least one operator application or passes through a stack slot AND lies within 1 of a threshold relevant for the called function; distinct by hash of the decoded case".into();
     eng.assumptions = vec![
         "values that pass a signed overflow of add/sub/mult/shift-left, a two's complement of MIN or a division are only checked one-sidedly (the interval domain documents precision loss there): a warning must still be correct, a missing one is tolerated and counted".into(),
-        "stack accesses are aligned, non-overlapping and reloaded with the size they were stored with; addresses are SP/frame pointer plus constant".into(),
+        "stack slots are aligned; addresses are SP/frame pointer plus constant; a value that is not one earlier store read back with the same offset and size (partially overwritten slot, partial load) is treated like documented precision loss: a missing warning is tolerated, a warning for a value that does not meet the condition is not".into(),
         "the oracle evaluates the normalized block (normalization itself is the subject of C10); cases whose parameter depends on the initial state after normalization are skipped and counted".into(),
         "neither check reads pointer-inference results (main.rs does not compute them for CWE467/CWE560); AnalysisResults carries project and CFG only".into(),
     ];
-    let cases = eng.tier.pick(400_000, 5_000_000);
+    let cases = eng.tier.pick(1_500_000, 30_000_000);
     eng.random(
         "constant-arguments",
         RandomSpec { cases, max_tape: 256 },
